@@ -26,7 +26,8 @@ COQCHK = ["Properties.C10"]
 RULE = ("pairs of nested values (depth <= 3, width <= 4; atoms None/bool/int/half-integer float/str/bytes incl. quotes, backslash, "
         "newline, tab, DEL, Latin-1 and non-UTF-8 bytes; list/tuple/dict/set/frozenset): 30% edit scripts of 1-3 edits, 15% dict-rooted "
         "values with 1-4 key add/delete/rekey/replace edits, 25% atom "
-        "lists related by insert/delete/replace/move/dup planted under 0-2 levels, 15% independent values, 15% set-heavy; "
+        "lists related by insert/delete/replace/move/dup planted under 0-2 levels, 10% independent values, 10% 2-4 sets at different paths "
+        "(dict values / list items / nested) each gaining and losing members, 10% one planted set pair; plus 5 fixed multi-container pairs; "
         "x {ordered, ignore_order, ignore_order+report_repetition} x verbose_level {0,1,2} x view {text,tree} "
         "(ordered mode also x threshold_to_diff_deeper {0.33, 0}). Non-trivial = non-empty tree; distinct by (t1, t2, mode, verbose).")
 TRUSTED = ["the JSON text encoder (json / orjson) and json.loads: the model stops at the JSON-able value that json.dumps walks; the check parses to_json() back",
@@ -571,9 +572,12 @@ def gen_pairs(ctx, n):
             x, y, _k = V.gen_atom_list_pair(rng, maxlen=8)
             t1, t2 = V.plant(rng, rng.choice([0, 0, 1, 2]), (x, y))
             ctx.count("gen:atom_list_edit")
-        elif r < 0.85:
+        elif r < 0.8:
             t1, t2 = gen_val(rng, 3, 3), gen_val(rng, 3, 3)
             ctx.count("gen:independent")
+        elif r < 0.9:
+            t1, t2 = gen_multi_sets(rng)
+            ctx.count("gen:multi_sets")
         else:
             s1 = gen_val(rng, 1, 4, kinds="S")
             s2 = gen_val(rng, 1, 4, kinds="S")
@@ -583,6 +587,45 @@ def gen_pairs(ctx, n):
             ctx.count("gen:sets")
         out.append((t1, t2))
     return out
+
+
+def gen_multi_sets(rng):
+    """2-4 sets at different paths (dict values, list items, nested), each gaining / losing members"""
+    n = rng.randint(2, 4)
+    pool = [1, 2, 3, 4, 5, "a", "b", "x y", "it's", None, 2.5, True, b"ab"]
+    olds, news = [], []
+    for _ in range(n):
+        base = set(rng.sample(pool, rng.randint(0, 4)))
+        new = set(base)
+        for _e in range(rng.randint(1, 3)):
+            m = rng.choice(pool)
+            if m in new and rng.random() < 0.5:
+                new.discard(m)
+            elif not any(m == q for q in new):
+                new.add(m)
+        if rng.random() < 0.2:
+            base, new = frozenset(base), frozenset(new)
+        olds.append(base)
+        news.append(new)
+    shape = rng.choice(["dict", "dict", "list", "nested", "mixed"])
+    keys = rng.sample(["a", "b", "c", 1, 2.5, None, "k k"], n)
+    if shape == "dict":
+        return dict(zip(keys, olds)), dict(zip(keys, news))
+    if shape == "list":
+        return [0] + olds, [0] + news
+    if shape == "nested":
+        return ({"p": {keys[0]: olds[0]}, "q": [olds[1]], "r": tuple(olds[2:])},
+                {"p": {keys[0]: news[0]}, "q": [news[1]], "r": tuple(news[2:])})
+    return ({keys[0]: olds[0], "l": [1, olds[1:]]}, {keys[0]: news[0], "l": [1, news[1:]]})
+
+
+FIXED_PAIRS = [
+    ({'a': {1, 2}, 'b': {1, 2}, 'c': [{'x'}, {'x', 'y'}]}, {'a': {1, 2, 3}, 'b': {1, 2, 3}, 'c': [{'x', 'z'}, {'x'}]}),
+    ({'a': {1, 2}, 'b': {3, 4}}, {'a': {2}, 'b': {4}}),
+    ([{1}, {2}, {3}], [{1, 9}, {2, 9}, {3, 8}]),
+    ({'a': [1, 2], 'b': [1, 2]}, {'a': [1, 2, 3], 'b': [1, 2, 3]}),
+    ({'a': {'x': 1}, 'b': {'x': 1}}, {'a': {'x': 2, 'y': 0}, 'b': {'x': 3, 'y': 0}}),
+]
 
 
 MODES = (("ordered", {}), ("ignore_order", {"ignore_order": True}),
@@ -652,7 +695,7 @@ def replay_witnesses(ctx):
 
 
 def run(ctx):
-    pairs = gen_pairs(ctx, 6000 if ctx.thorough else 600)
+    pairs = FIXED_PAIRS + gen_pairs(ctx, 6000 if ctx.thorough else 520)
     cases, iocases = [], []
     for t1, t2 in pairs:
         one_pair(ctx, t1, t2, cases, iocases=iocases)
